@@ -53,22 +53,22 @@ package main
 //
 //	mutant                                  place                                   repo tests   caught  new  first new signature
 //	m43-bigint-wrapped-single-byte  (M43)   decode.go decodeBigInt size==1 check    FAIL         yes      1   type=*big.Int|input-class=single-byte-wrapped|oracle=noncanonical-accepted
-//	m43-bytes-wrapped-single-byte   (M43)   decode.go Stream.Bytes size==1 check    FAIL         yes      9   type=[]byte|input-class=single-byte-wrapped|oracle=noncanonical-accepted (also string, interface{}, nested)
+//	m43-bytes-wrapped-single-byte   (M43)   decode.go Stream.Bytes size==1 check    FAIL         yes      9   type=*[]byte|input-class=single-byte-wrapped|oracle=noncanonical-accepted (also []byte, string, interface{}, nested)
 //	m43-bytearray-wrapped-single-byte (M43) decode.go decodeByteArray size==1 check FAIL         yes      1   type=[1]byte|input-class=single-byte-wrapped|oracle=noncanonical-accepted
 //	m44-bigint-leading-zero         (M44)   decode.go decodeBigInt ErrCanonInt      FAIL         yes      2   type=*big.Int|input-class=int-leading-zero|oracle=noncanonical-accepted
-//	m44-uint-zero-byte              (M44)   decode.go Stream.uint byteval==0        FAIL         yes     13   type=uint64|input-class=int-leading-zero|oracle=noncanonical-accepted
+//	m44-uint-zero-byte              (M44)   decode.go Stream.uint byteval==0        FAIL         yes     13   type=*uint|input-class=int-leading-zero|oracle=noncanonical-accepted (also uint64, uint8, bool, []uint, structs)
 //	m44-uint-leading-zero           (M44)   decode.go readUint leading zero         FAIL         yes     18   input-class=size-leading-zero / int-leading-zero|oracle=noncanonical-accepted
-//	uint-wrapped-single-byte                decode.go Stream.uint v<128             FAIL         yes     10   type=uint64|input-class=single-byte-wrapped|oracle=noncanonical-accepted
+//	uint-wrapped-single-byte                decode.go Stream.uint v<128             FAIL         yes     10   type=*uint|input-class=single-byte-wrapped|oracle=noncanonical-accepted (also uint64, uint8, []uint, structs)
 //	bool-any-nonzero                        decode.go Stream.Bool                   FAIL         yes      1   type=bool|input-class=bad-bool|oracle=nonconforming-accepted
-//	value-size-limit                        decode.go Kind() ErrValueTooLarge       FAIL         yes     10   type=[]byte|input-class=huge-size-header:string@top|oracle=alloc-bound (and panic for 2^63.. claims)
+//	value-size-limit                        decode.go Kind() ErrValueTooLarge       FAIL         yes     10   type=*[]byte|input-class=huge-size-header:string@top|oracle=alloc-bound (also []byte, string, interface{}, RawValue, *big.Int; list@top)
 //	trailing-bytes                          decode.go DecodeBytes r.Len()>0         pass         yes     18   input-class=trailing-bytes|oracle=noncanonical-accepted
 //	long-form-short-string                  decode.go readKind size<56 (string)     FAIL         yes     19   input-class=long-form-short-payload|oracle=noncanonical-accepted
 //	long-list-size-55                       decode.go readKind size<56 -> <55 (list) pass        yes     12   input-class=long-form-short-payload|oracle=noncanonical-accepted (57-byte boundary inputs)
 //	listend-extra-elements                  decode.go ListEnd listLimit>0 -> >1     FAIL         yes      6   type=[2]uint|input-class=canonical|oracle=stream-consumed-length
-//	nilptr-byte-kind                        decode.go makeNilPtrDecoder kind!=Byte  FAIL         yes      8   type=struct-nil-optional|input-class=canonical|oracle=canonical-rejected
+//	nilptr-byte-kind                        decode.go makeNilPtrDecoder kind!=Byte  FAIL         yes      8   part=values|leaf=[1]byte|oracle=decode-of-encoding-fails; type=struct-nil-optional|input-class=canonical|oracle=canonical-rejected
 //	readbytes-wrapped-single-byte           decode.go Stream.ReadBytes size==1      pass         yes      1   type=untyped-api|input-class=single-byte-wrapped|oracle=stream-readbytes-disagrees
-//	raw-split-wrapped-single-byte           raw.go readKind single byte rule        FAIL         yes      6   type=untyped-api|oracle=split-noncanonical-accepted / countvalues-disagrees
-//	raw-readsize-short                      raw.go readSize s<56                    FAIL         yes      8   type=untyped-api|input-class=long-form-short-payload|oracle=split-noncanonical-accepted
+//	raw-split-wrapped-single-byte           raw.go readKind single byte rule        FAIL         yes      6   type=untyped-api|input-class=canonical-header|oracle=countvalues-disagrees; ...|oracle=split-noncanonical-accepted
+//	raw-readsize-short                      raw.go readSize s<56                    FAIL         yes      8   type=untyped-api|input-class=canonical-header|oracle=countvalues-disagrees; ...|oracle=split-noncanonical-accepted
 //	raw-splituint64-zero-byte               raw.go SplitUint64 content[0]==0        FAIL         yes      1   type=untyped-api|oracle=splituint64-disagrees
 //	appenduint64-7bytes                     raw.go AppendUint64 i<1<<56 -> <=       pass         yes      1   part=values|leaf=uint64|oracle=encoder-entrypoints-disagree
 //	iterator-skip                           iterator.go Next drops a 1-byte tail    pass         yes      1   type=untyped-api|oracle=listiterator-disagrees
